@@ -311,7 +311,8 @@ def udp_job(p, c, t, users, cname, tier, seed, sub):
     except T.DeploymentError as e:
         return _deploy_failed(names, spec, e)
     res = []
-    apps = [T.UdpApp("a%d" % i) for i in range(napps)]
+    # the first application names its targets (ATYP 3, "localhost"), the others use IPv4 literals
+    apps = [T.UdpApp("a%d" % i, by_name=(i == 0)) for i in range(napps)]
     targets = [T.UdpTarget(echo=True) for _ in range(ntargets)]
     try:
         phases = []
